@@ -55,6 +55,7 @@ func checkC17(c *Ctx) {
 		var cbCalls []int
 		var lastRunWrite = -1
 		var since, skip *pw.Val
+		var skipVals []*pw.Val
 		var nowForLastRun *pw.Val
 		for i, ev := range p.Events {
 			switch {
@@ -67,12 +68,14 @@ func checkC17(c *Ctx) {
 					r.Bad("R17.1", name, "lastRun-write-unlocked", c.Pos(ev.Pos), "lastRun is written without the mutex", shortTrace(p))
 				}
 			case ev.Kind == pw.EvFieldWrite && ev.Field != nil && fname(ev.Field) == "SkipInterval":
+				skipVals = append(skipVals, ev.Value) // the default published into the field is the interval in effect
 				if !held(i) {
 					r.Bad("R17.1", name, "SkipInterval-write-unlocked", c.Pos(ev.Pos), "SkipInterval is defaulted without the mutex: concurrent Invalidate calls race on it", shortTrace(p))
 				}
 			case ev.Kind == pw.EvFieldRead && ev.Field != nil && (fname(ev.Field) == "lastRun" || fname(ev.Field) == "SkipInterval"):
 				if fname(ev.Field) == "SkipInterval" {
 					skip = ev.Value
+					skipVals = append(skipVals, ev.Value)
 				}
 				if !held(i) {
 					r.Bad("R17.1", name, fname(ev.Field)+"-read-unlocked", c.Pos(ev.Pos), fname(ev.Field)+" is read without the mutex", shortTrace(p))
@@ -127,7 +130,7 @@ func checkC17(c *Ctx) {
 			// R17.2 accept ⇒ not (since < skip)
 			if since == nil || skip == nil {
 				r.Bad("R17.2", name, "accept-without-test", c.Pos(p.RetPos), "a call is accepted without comparing time.Since(lastRun) with SkipInterval", shortTrace(p))
-			} else if p.Rel(since, skip)&pw.RLt != 0 {
+			} else if !relWithAny(p, since, skipVals, func(rel uint8) bool { return rel&pw.RLt == 0 }) {
 				r.Bad("R17.2", name, "accept-too-early", c.Pos(p.RetPos), "a call is accepted on a path where since(lastRun) < SkipInterval is possible", shortTrace(p))
 			}
 			if lastRunWrite < 0 || nowForLastRun == nil || !(nowForLastRun.Kind == pw.KCall && nowForLastRun.Ev.Role == "Std:time.Now") {
@@ -204,7 +207,7 @@ func checkC17(c *Ctx) {
 			if cbField == nil || nilTri(p, cbField) != triFalse {
 				r.Bad("R17.4", name, "reject-without-callbacks-test", c.Pos(p.RetPos), "a call is rejected as already invalidated on a path that does not establish that callbacks are registered: with none it must report ErrNothingToInvalidate", shortTrace(p))
 			}
-			if since == nil || skip == nil || p.Rel(since, skip)&pw.RGt != 0 {
+			if since == nil || skip == nil || !relWithAny(p, since, skipVals, func(rel uint8) bool { return rel&pw.RGt == 0 }) {
 				r.Bad("R17.2", name, "reject-without-reason", c.Pos(p.RetPos), "a call is rejected on a path where since(lastRun) >= SkipInterval is possible", shortTrace(p))
 			}
 		}
@@ -331,6 +334,17 @@ func checkC17(c *Ctx) {
 }
 
 // fromCallbacks: v is the Callbacks field or a copy of it (append/slice).
+// relWithAny: the relation between a and one of the candidate values (the interval as read, or as defaulted and published on this
+// path) satisfies ok.
+func relWithAny(p *pw.Path, a *pw.Val, cands []*pw.Val, ok func(rel uint8) bool) bool {
+	for _, b := range cands {
+		if b != nil && ok(p.Rel(a, b)) {
+			return true
+		}
+	}
+	return false
+}
+
 func fromCallbacks(v *pw.Val) bool {
 	for i := 0; v != nil && i < 5; i++ {
 		if v.Field != nil && fname(v.Field) == "Callbacks" {
